@@ -503,3 +503,36 @@ package tree
 //@   ensures own_entry_is_flagged: callres(LeafVariants_GetByOwner) != nil ==> called(MarkDelete) && callarg(MarkDelete, 0, 0) == callres(LeafVariants_GetByOwner) && callarg(MarkDelete, 0, 1) == onlyIntended
 //@   ensures children_are_always_visited: called(GetAll)
 //@   loop 0 invariant every_child_is_asked: allstr(k, present($map, k) ==> $map[k] != nil)
+
+// ---------------------------------------------------------------------------
+// C01: the delete verdicts of a tree node are the one-step unfolding of the verdicts of its leaf variants and of its
+// active children. cdel / sdel / rem name the verdicts of an entry (what the Entry methods return); the concrete
+// methods are proved to compute them from the children's verdicts as the comments in the code say:
+//   canDelete      = the leaf variants can be deleted and every active child can be deleted
+//   remainsToExist = a leaf variant remains, or an active child remains, or a choice still has an active case
+//@ spec cdel(Entry) Bool
+//@ spec sdel(Entry) Bool
+//@ spec rem(Entry) Bool
+//@ iface Entry.canDelete
+//@   modifies sharedEntryAttributes.cacheCanDelete, allelems(bool)
+//@   ensures verdict: result == cdel(self)
+//@ iface Entry.shouldDelete
+//@   modifies sharedEntryAttributes.cacheShouldDelete, sharedEntryAttributes.cacheCanDelete, allelems(bool)
+//@   ensures verdict: result == sdel(self)
+//@ iface Entry.remainsToExist
+//@   modifies sharedEntryAttributes.cacheRemains, allelems(bool)
+//@   ensures verdict: result == rem(self)
+
+//@ func (*sharedEntryAttributes).filterActiveChoiceCaseChilds
+//@   trusted the active children: all children, minus the members of choice cases that lost the case resolution (GetSkipElements, under contract for C08)
+//@   noeffect
+//@   ensures no_nil_children: allstr(k, present(result, k) ==> result[k] != nil)
+
+//@ func (*sharedEntryAttributes).canDelete
+//@   props C01
+//@   requires s != nil && s.leafVariants != nil && lvOK(s.leafVariants) && s.cacheMutex != nil
+//@   uses canDelete: verdict
+//@   ensures unfolds: old(s.cacheCanDelete) == nil ==> result == (callres(LeafVariants_canDelete) &&
+//@            (!called(filterActiveChoiceCaseChilds) || allstr(k, present(callres(filterActiveChoiceCaseChilds), k) ==> cdel(callres(filterActiveChoiceCaseChilds)[k]))))
+//@   ensures children_asked_unless_leaf_verdict_is_no: old(s.cacheCanDelete) == nil && callres(LeafVariants_canDelete) ==> called(filterActiveChoiceCaseChilds)
+//@   loop 0 invariant every_visited_child_can_be_deleted: allstr(k, $visited[k] ==> cdel($map[k])) && callres(LeafVariants_canDelete) && $map == callres(filterActiveChoiceCaseChilds)
